@@ -307,6 +307,12 @@ static Any mk(World* w, S&& s) {
 // result of a void-returning user callable, or the child's own int value, as one int
 struct Unify { int k; TV operator()() const { return TV{k}; } TV operator()(TV x) const { return TV{x.v}; } };
 
+struct MatObs {
+  TV operator()(tag_t<set_value>, TV v) const { return TV{v.v}; }
+  TV operator()(tag_t<set_error>, std::exception_ptr e) const { return TV{errcode(e) + 100}; }
+  TV operator()(tag_t<set_done>) const { return TV{77}; }
+};
+
 static Any build(World* w, const Node& n, int arg) {
   const std::string& k = n.k;
   auto num = [&](size_t i) { return atoi(n.args.at(i).c_str()); };
@@ -344,6 +350,7 @@ static Any build(World* w, const Node& n, int arg) {
     return mk(w, upon_done(build(w, n.ch.at(0), arg), [f]() { return TV{f(0)}; }));
   }
   if (k == "md") return mk(w, dematerialize(materialize(build(w, n.ch.at(0), arg))));
+  if (k == "mob") return mk(w, then(materialize(build(w, n.ch.at(0), arg)), MatObs{}));
   if (k == "dao") {
     int d = num(0);
     return mk(w, then(done_as_optional(build(w, n.ch.at(0), arg)), [d](std::optional<TV> o) { return o ? TV{o->v} : TV{d}; }));
